@@ -222,6 +222,14 @@ func (e *Env) lookup(name string) (TV, bool) {
 			}
 		}
 		fn := e.fr.fn
+		if c := e.x.eng.contractFor(fn); c != nil && c.Kind == "func" && len(c.Params) == len(fn.Params) {
+			// the contract's own names for the parameters, by position
+			for i, n := range c.Params {
+				if n == name {
+					return TV{e.fr.params[i], fn.Params[i].Type()}, true
+				}
+			}
+		}
 		for i, p := range fn.Params {
 			if p.Name() == name {
 				return TV{e.fr.params[i], p.Type()}, true
@@ -232,6 +240,14 @@ func (e *Env) lookup(name string) (TV, bool) {
 			var i int
 			if _, err := fmt.Sscanf(name, "param%d", &i); err == nil && fmt.Sprintf("param%d", i) == name && i < len(fn.Params) {
 				return TV{e.fr.params[i], fn.Params[i].Type()}, true
+			}
+		}
+		if c := e.x.eng.contractFor(fn); c != nil && c.Kind == "func" && len(c.FreeVars) == len(fn.FreeVars) {
+			for i, n := range c.FreeVars {
+				if n == name {
+					pt := fn.FreeVars[i].Type().(*types.Pointer).Elem()
+					return TV{e.st.load(e.fr.freeCells[i], pt), pt}, true
+				}
 			}
 		}
 		for i, fv := range fn.FreeVars {
@@ -795,6 +811,15 @@ func (e *Env) call(c *ECall) TV {
 			sfail("unknown function %s", exprKey(c.Args[1]))
 		}
 		name := exprKey(c.Args[2])
+		// the closure's contract may name its captured variables by position
+		if cc := e.x.eng.contractFor(fn); cc != nil && len(cc.FreeVars) == len(fn.FreeVars) {
+			for i, n := range cc.FreeVars {
+				if n == name {
+					name = fn.FreeVars[i].Name()
+					break
+				}
+			}
+		}
 		for _, fv := range fn.FreeVars {
 			if fv.Name() == name {
 				comp := st.comp(fmt.Sprintf("B!%s!%s", sanitize(funcKey(fn)), name), ArrSort(SI, sortOf(fv.Type())))
@@ -815,6 +840,13 @@ func (e *Env) call(c *ECall) TV {
 			sfail("fvcell outside a closure")
 		}
 		name := exprKey(c.Args[0])
+		if cc := e.x.eng.contractFor(e.fr.fn); cc != nil && len(cc.FreeVars) == len(e.fr.fn.FreeVars) {
+			for i, n := range cc.FreeVars {
+				if n == name {
+					return TV{e.fr.freeCells[i], e.fr.fn.FreeVars[i].Type()}
+				}
+			}
+		}
 		for i, fv := range e.fr.fn.FreeVars {
 			if fv.Name() == name {
 				return TV{e.fr.freeCells[i], fv.Type()}
